@@ -18,6 +18,7 @@ import (
 	"verifsim/hkit"
 	"verifsim/simrt"
 	"verifsim/simrt/simmaphash"
+	"verifsim/simrt/simsync"
 )
 
 var oracleProps = map[string]string{
@@ -51,6 +52,11 @@ type persisted struct {
 	klo, khi int
 }
 
+// asofQuery is a historical lookup made while the history was running.
+type asofQuery struct {
+	t, r int64 // requested time, time of the state it landed on
+}
+
 type harness struct {
 	s    *simrt.Sim
 	ri   *hkit.RunInfo
@@ -75,6 +81,8 @@ type harness struct {
 	images    []crashImage
 	imageAt   map[int64]bool
 	persistIv time.Duration
+	dbMu      simsync.Mutex // held by the concurrent asof reader while it uses the database, and by restarts
+	asofLog   []asofQuery
 	events    []map[string]map[string]string // model after each successful state changing operation
 	inflight  bool                           // a Complete() is in progress
 	floor     int                            // prefix an explicit Persist / Close must include
@@ -926,6 +934,8 @@ func (h *harness) raiseFloor(off uint64, floor int) {
 
 // restart: clean close, reopen, compare everything (C04).
 func (h *harness) restart(final bool) bool {
+	h.dbMu.Lock()
+	defer h.dbMu.Unlock()
 	before := h.snapNow(true)
 	if before == nil {
 		return false
@@ -1019,6 +1029,32 @@ func Run(s *simrt.Sim, mode string, ri *hkit.RunInfo) {
 	s.OnYield(func() { h.observe(); h.maybeImage() })
 	s.OnStep(func() { h.observe(); h.maybeImage() })
 
+	historyDone := false
+	if mode == "C19" || mode == "ALL" {
+		// historical lookups "a moment ago" while persists are in progress: the answer given
+		// then must still be the right one when all states are known at the end
+		gs := s.Tape.Stream("asof-reader")
+		s.GoNamed("asof-reader", func() {
+			for !historyDone && !s.Over() {
+				simrt.Sleep(time.Duration(1+gs.Choose(2500)) * time.Millisecond)
+				if historyDone || s.Over() {
+					return
+				}
+				h.dbMu.Lock()
+				if h.db != nil {
+					t := simrt.Now().UnixMilli() - int64(gs.Choose(3000)) - 1
+					var r int64
+					res := try(func() { r = h.db.NewReadTran().Asof(t) })
+					if res == "" && r != 0 {
+						h.asofLog = append(h.asofLog, asofQuery{t, r})
+						h.ri.Count("asof.concurrent-queries", 1)
+					}
+				}
+				h.dbMu.Unlock()
+			}
+		})
+	}
+	defer func() { historyDone = true }()
 	// weights: admin tran persist think restart
 	w := []int{4, 8, 2, 3, 1, 1}
 	switch mode {
@@ -1085,8 +1121,11 @@ func Run(s *simrt.Sim, mode string, ri *hkit.RunInfo) {
 			return
 		}
 	}
+	historyDone = true
+	h.dbMu.Lock()
 	final := h.snapNow(false)
 	res := try(func() { h.db.Close() })
+	h.dbMu.Unlock()
 	if res != "" {
 		h.fail("op-panic", "", "final Close raised %s", res)
 		return
